@@ -460,7 +460,7 @@ def check_tree(tree, rec):
                 pass
 
 
-SUBS = [Sub("spellings", config_tree, check_tree, quick=400, thorough=8000)]
+SUBS = [Sub("spellings", config_tree, check_tree, quick=800, thorough=8000)]
 REQUIRED_CLASSES = ["spellings:nested_climatology", "spellings:unknown_module_or_test", "spellings:parameterless_test",
                     "spellings:multi_context", "spellings:non_identifier_stream", "spellings:layouts=4", "spellings:window",
                     "spellings:region"]
